@@ -107,7 +107,7 @@ UNIT_CLS = {'M': ('IndexYearMonth', 'IndexYearMonthGO'), 'Y': ('IndexYear', 'Ind
 
 def unit_labels(rng, unit):
     base = {'M': 590, 'Y': 48, 's': 1600000000, 'h': 440000}[unit]
-    pool = [['d', unit, base + v] for v in rng.sample(range(0, 30), 8)]
+    pool = [['d', unit, base + v] for v in rng.sample([v for v in range(0, 30) if unit != 'h' or (base + v) % 24], 8)]          # (an hour label that is a whole day would be read back as a date by the observer)
     n = rng.randint(0, 6)
     labs = pool[:n]
     if labs and rng.random() < 0.3:
@@ -372,6 +372,23 @@ def hier_event(rng):
     for o in outer:
         for i in rng.sample([['i', 1], ['i', 2], ['i', 3]], rng.randint(1, 3)):
             rows.append(['t', [o, i]])
+    if rng.random() < 0.3:
+        # depth 3, ragged, second-level labels not repeated under different outer labels (so that an outer level can be dropped):
+        # the levels that stay must be re-linked (positions after the first branch), observed through lookup, values and iteration
+        rows, second = [], 0
+        for o in outer:
+            for _ in range(rng.randint(1, 2)):
+                second += 1
+                for x in rng.sample([['s', 'x'], ['s', 'y'], ['s', 'z']], rng.randint(1, 3)):
+                    rows.append(['t', [o, ['i', second], x]])
+        ih3 = sf.IndexHierarchy.from_labels([P.dec(r) for r in rows])
+        if rng.random() < 0.3:
+            ih3 = sf.IndexHierarchyGO(ih3)
+        if rng.random() < 0.5:
+            ih3.values          # with and without a materialised label table
+        route = rng.choice(['ih_level_drop_outer', 'ih_level_drop_outer', 'ih_level_drop_inner', 'ih_copy'])
+        fn = {'ih_level_drop_outer': lambda: ih3.level_drop(1), 'ih_level_drop_inner': lambda: ih3.level_drop(-1), 'ih_copy': lambda: ih3.copy()}[route]
+        return {'kind': 'derive', 'route': route, 'src': rows, 'arg': ['none'], 'cls': type(ih3).__name__, 'obs': attempt(fn)}
     ih = sf.IndexHierarchy.from_labels([P.dec(r) for r in rows])
     if rng.random() < 0.3:
         ih = sf.IndexHierarchyGO(ih)
